@@ -205,8 +205,8 @@ pub fn cli_check(s: &str) -> CaseResult {
 
 pub fn run_c15(ctx: &mut Ctx) {
     let t = ctx.tier;
-    run_prop(ctx, "arbitrary_unicode_strings", || any::<String>(), t.pick(100_000, 2_000_000), |s, st| c15_string(s, st), |s| json!({"string": s}));
-    run_prop(ctx, "six_field_shaped_garbage", six_fields, t.pick(300_000, 6_000_000), |s, st| c15_string(s, st), |s| json!({"string": s}));
+    run_prop(ctx, "arbitrary_unicode_strings", || any::<String>(), t.pick(300_000, 4_000_000), |s, st| c15_string(s, st), |s| json!({"string": s}));
+    run_prop(ctx, "six_field_shaped_garbage", six_fields, t.pick(900_000, 12_000_000), |s, st| c15_string(s, st), |s| json!({"string": s}));
     run_prop(
         ctx,
         "legal_fens_roundtrip_with_counters",
@@ -214,7 +214,7 @@ pub fn run_c15(ctx: &mut Ctx) {
             m.edits.clear();
             m
         }),
-        t.pick(60_000, 1_500_000),
+        t.pick(180_000, 3_000_000),
         |m, st| {
             let Some(s) = mutfen_string(m) else { return Ok(()) };
             st.sample(|| json!({"string": s}));
@@ -229,7 +229,7 @@ pub fn run_c15(ctx: &mut Ctx) {
         ctx,
         "mutated_valid_fens",
         || mutfen_strategy(4),
-        t.pick(300_000, 6_000_000),
+        t.pick(900_000, 12_000_000),
         |m, st| {
             let Some(s) = mutfen_string(m) else { return Ok(()) };
             st.sample(|| json!({"string": s}));
